@@ -2,6 +2,8 @@ package main
 
 import (
 	"fmt"
+	"go/token"
+	"go/types"
 	"sort"
 	"strings"
 
@@ -240,4 +242,244 @@ func (pa *Path) lastFieldStoreOnPath(al *ssa.Alloc, field string, before ssa.Ins
 		}
 	}
 	return nil
+}
+
+// ---- memory of a recycled object does not leave its Get/Put window ---------------------------------
+//
+// A function that hands an object back to a sync.Pool (directly, deferred, or through a helper that
+// puts its parameter back) must not let memory of that object escape: the next user of the pool
+// overwrites what the caller still holds (an encoded command while raft still owns it, a response
+// body while it is being written, a proof's audit path, a decoded log entry's payload). Escape =
+// returned, stored into memory that is not local to the function, or sent on a channel. Aliasing is
+// decided on the provenance term: scalars and strings cannot alias; field/index/slice/deref and the
+// state-returning methods (bytes.Buffer.Bytes/Next, module methods returning a reference-typed field
+// of their receiver, constructors storing their argument) preserve aliasing; copies (String,
+// append to a fresh slice of scalars, copy, Marshal) cut it.
+func holdsRef(t types.Type, depth int) bool {
+	if t == nil || depth > 6 {
+		return false
+	}
+	switch u := t.Underlying().(type) {
+	case *types.Basic:
+		return u.Kind() == types.UnsafePointer
+	case *types.Pointer, *types.Slice, *types.Map, *types.Chan, *types.Interface, *types.Signature:
+		return true
+	case *types.Struct:
+		for i := 0; i < u.NumFields(); i++ {
+			if holdsRef(u.Field(i).Type(), depth+1) {
+				return true
+			}
+		}
+		return false
+	case *types.Array:
+		return holdsRef(u.Elem(), depth+1)
+	case *types.Tuple:
+		for i := 0; i < u.Len(); i++ {
+			if holdsRef(u.At(i).Type(), depth+1) {
+				return true
+			}
+		}
+		return false
+	}
+	return true
+}
+
+var aliasReturningMethods = map[string]bool{"Bytes": true, "Next": true, "Peek": true, "AvailableBuffer": true}
+
+func (p *Program) mayAlias(t *Term, isPooled func(*Term) bool, depth int) bool {
+	if t == nil || depth > 14 {
+		return false
+	}
+	if isPooled(t) {
+		return true
+	}
+	if t.V != nil && t.Op != "call" && t.Op != "dyncall" && t.Op != "invoke" && !holdsRef(t.V.Type(), 0) {
+		return false
+	}
+	switch t.Op {
+	case "const", "global", "param", "fv", "unknown":
+		return false
+	case "call", "dyncall", "invoke", "extract":
+		callT := t
+		if t.Op == "extract" && len(t.Args) > 0 {
+			callT = t.Args[0]
+		}
+		if t.V != nil {
+			rt := t.V.Type()
+			if t.Op != "extract" {
+				if tu, ok := rt.(*types.Tuple); ok && tu.Len() > 0 {
+					rt = tu
+				}
+			}
+			if !holdsRef(rt, 0) {
+				return false
+			}
+		}
+		if callT.Op == "invoke" {
+			return false
+		}
+		g := callT.Fn
+		if g != nil && g.Pkg != nil && p.inModule(g.Pkg.Pkg.Path()) && len(g.Blocks) > 0 {
+			if ex := p.X1(t); ex != t {
+				return p.mayAlias(ex, isPooled, depth+1)
+			}
+			return false
+		}
+		if g != nil && aliasReturningMethods[g.Name()] && len(callT.Args) > 0 {
+			return p.mayAlias(callT.Args[0], isPooled, depth+1)
+		}
+		return false
+	case "builtin":
+		if t.Name == "append" && len(t.Args) > 0 {
+			if p.mayAlias(t.Args[0], isPooled, depth+1) {
+				return true
+			}
+			// appended elements are copied; they alias only when they are references themselves
+			if t.V != nil {
+				if sl, ok := t.V.Type().Underlying().(*types.Slice); ok && !holdsRef(sl.Elem(), 0) {
+					return false
+				}
+			}
+			for _, a := range t.Args[1:] {
+				if p.mayAlias(a, isPooled, depth+1) {
+					return true
+				}
+			}
+		}
+		return false
+	}
+	for _, a := range t.Args {
+		if p.mayAlias(a, isPooled, depth+1) {
+			return true
+		}
+	}
+	return false
+}
+
+// putBack: the values fn hands back to a sync.Pool (Put called directly, deferred, or by a module
+// helper that puts its own parameter back).
+func (p *Program) putBack(fn *ssa.Function) []ssa.Value {
+	isPoolPut := func(f *ssa.Function) bool {
+		return f != nil && f.Name() == "Put" && f.Signature.Recv() != nil && namedIs(f.Signature.Recv().Type(), "sync", "Pool")
+	}
+	var out []ssa.Value
+	eachInstr(fn, func(in ssa.Instruction) {
+		cc := callCommon(in)
+		if cc == nil || cc.StaticCallee() == nil {
+			return
+		}
+		f := cc.StaticCallee()
+		if isPoolPut(f) && len(cc.Args) == 2 {
+			out = append(out, cc.Args[1])
+			return
+		}
+		if f.Pkg != nil && p.inModule(f.Pkg.Pkg.Path()) && len(f.Blocks) > 0 && f != fn {
+			eachInstr(f, func(in2 ssa.Instruction) {
+				c2 := callCommon(in2)
+				if c2 == nil || !isPoolPut(c2.StaticCallee()) || len(c2.Args) != 2 {
+					return
+				}
+				v := c2.Args[1]
+				if mi, ok := v.(*ssa.MakeInterface); ok {
+					v = mi.X
+				}
+				if par, ok := v.(*ssa.Parameter); ok {
+					if i := paramIndex(par); i >= 0 && i < len(cc.Args) {
+						out = append(out, cc.Args[i])
+					}
+				}
+			})
+		}
+	})
+	return out
+}
+
+func poolEscapes(c *Ctx, rule string, pkgs []string) {
+	p := c.P
+	want := map[string]bool{}
+	for _, k := range pkgs {
+		want[modPkg(k)] = true
+	}
+	bad, n, pools := 0, 0, 0
+	for _, fn := range p.ModFuncs {
+		if fn.Pkg == nil || !want[fn.Pkg.Pkg.Path()] || !p.Production(fn) {
+			continue
+		}
+		n++
+		put := p.putBack(fn)
+		if len(put) == 0 {
+			continue
+		}
+		pools++
+		pooledStr := map[string]bool{}
+		for _, v := range put {
+			if mi, ok := v.(*ssa.MakeInterface); ok {
+				v = mi.X
+			}
+			pooledStr[p.TermOf(v).Strip().String()] = true
+		}
+		isPooled := func(t *Term) bool { return pooledStr[t.Strip().String()] }
+		fail := func(pos token.Pos, what string) {
+			bad++
+			c.Fail(rule, funcName(fn)+":pooled-memory", pos, what+": the function hands that object back to a sync.Pool, so the next user of the pool overwrites memory the receiver still holds")
+		}
+		for _, rt := range p.ReturnTerms(fn) {
+			for _, t := range rt {
+				if p.mayAlias(t, isPooled, 0) {
+					fail(fn.Pos(), "returns "+t.String()+", memory of a recycled object")
+				}
+			}
+		}
+		eachInstr(fn, func(in ssa.Instruction) {
+			switch st := in.(type) {
+			case *ssa.Store:
+				// the base object the address designates
+				base := st.Addr
+				for {
+					if fa, ok := base.(*ssa.FieldAddr); ok {
+						base = fa.X
+					} else if ia, ok := base.(*ssa.IndexAddr); ok {
+						base = ia.X
+					} else {
+						break
+					}
+				}
+				if _, local := base.(*ssa.Alloc); local {
+					return
+				}
+				bt := p.TermOf(base)
+				if p.mayAlias(bt, isPooled, 0) {
+					return // a store into the recycled object itself
+				}
+				if vt := p.TermOf(st.Val); p.mayAlias(vt, isPooled, 0) {
+					fail(in.Pos(), "stores "+vt.String()+" into "+p.TermOf(st.Addr).String())
+				}
+			case *ssa.Send:
+				if vt := p.TermOf(st.X); p.mayAlias(vt, isPooled, 0) {
+					fail(in.Pos(), "sends "+vt.String()+" on a channel")
+				}
+			case *ssa.MapUpdate:
+				if _, local := st.Map.(*ssa.MakeMap); local {
+					return
+				}
+				if vt := p.TermOf(st.Value); p.mayAlias(vt, isPooled, 0) && !p.mayAlias(p.TermOf(st.Map), isPooled, 0) {
+					fail(in.Pos(), "stores "+vt.String()+" into a map")
+				}
+			}
+		})
+	}
+	_, hasPool := p.lookupStd("sync", "Pool")
+	c.Control("sync.Pool is part of the analysed program", hasPool)
+	if bad == 0 {
+		c.Ok(rule, "no-recycled-memory-escapes", 0, fmt.Sprintf("%d functions analysed, %d of them recycle an object through a sync.Pool; none lets its memory escape", n, pools))
+	}
+}
+
+func (p *Program) lookupStd(pkg, name string) (types.Object, bool) {
+	sp := p.SSAPkg[pkg]
+	if sp == nil || sp.Pkg == nil {
+		return nil, false
+	}
+	o := sp.Pkg.Scope().Lookup(name)
+	return o, o != nil
 }
